@@ -730,6 +730,10 @@ class Evaluator:
             s2 = state.fork()
             self._havoc_assigned(st.body, s2, "while", line)
             return [(s2, "fall", None, line)]
+        if isinstance(st, ast.Match):
+            ds = self._desugar_match(st, func)
+            if ds is not None:
+                return self.exec_block(ds, state, func)
         if isinstance(st, ast.Try):
             return self.exec_try(st, state, func)
         if isinstance(st, ast.Pass):
@@ -766,6 +770,157 @@ class Evaluator:
             return [(state, "fall", None, line)]
         self.unknowns.append((func.qname, line, type(st).__name__))
         return [(state, "fall", None, line)]
+
+    _match_cache: dict = {}
+
+    def _desugar_match(self, st: ast.Match, func: Func):
+        """`match subject: case P1: ... case P2: ...` as the if / elif chain it abbreviates (class patterns with keyword or positional
+        sub-patterns -- positions are the dataclass fields --, captures, `as`, literals, singletons, fixed-length sequences, alternatives
+        without captures, wildcard, guards).  Returns None for pattern kinds it does not cover."""
+        key = id(st)
+        if key in self._match_cache:
+            return self._match_cache[key][1]
+        self._counter_m = getattr(self, "_counter_m", 0) + 1
+        pre: list = []
+        if isinstance(st.subject, ast.Name):
+            subj: ast.expr = st.subject
+        elif isinstance(st.subject, ast.Tuple):
+            subj = st.subject  # matched element-wise, no tuple is built
+        else:
+            nm = f"__match{self._counter_m}"
+            pre.append(ast.Assign(targets=[ast.Name(id=nm, ctx=ast.Store())], value=st.subject, lineno=st.lineno, col_offset=0))
+            subj = ast.Name(id=nm, ctx=ast.Load())
+
+        def load(e):
+            return e
+
+        def fields_of(cls_expr):
+            nm_ = cls_expr.id if isinstance(cls_expr, ast.Name) else getattr(cls_expr, "attr", None)
+            r = self.model.resolve_name(func.module, nm_) if isinstance(cls_expr, ast.Name) else None
+            if isinstance(r, Cls):
+                ma = None
+                for k in r.mro():
+                    for b in k.node.body:
+                        if isinstance(b, ast.Assign) and any(isinstance(t_, ast.Name) and t_.id == "__match_args__" for t_ in b.targets) and isinstance(b.value, (ast.Tuple, ast.List)):
+                            ma = [x.value for x in b.value.elts if isinstance(x, ast.Constant)]
+                    if ma is not None:
+                        break
+                return ma if ma is not None else list(r.all_fields())
+            return None
+
+        def pat(p, e):
+            """(list of condition expressions, list of binding statements) for pattern p against expression e, or None"""
+            if isinstance(p, ast.MatchAs):
+                if p.pattern is None:
+                    return [], ([ast.Assign(targets=[ast.Name(id=p.name, ctx=ast.Store())], value=e)] if p.name else [])
+                r = pat(p.pattern, e)
+                if r is None:
+                    return None
+                return r[0], r[1] + ([ast.Assign(targets=[ast.Name(id=p.name, ctx=ast.Store())], value=e)] if p.name else [])
+            if isinstance(p, ast.MatchValue):
+                return [ast.Compare(left=e, ops=[ast.Eq()], comparators=[p.value])], []
+            if isinstance(p, ast.MatchSingleton):
+                if p.value is True:
+                    return [e], []
+                if p.value is False:
+                    return [ast.UnaryOp(op=ast.Not(), operand=e)], []
+                return [ast.Compare(left=e, ops=[ast.Is()], comparators=[ast.Constant(value=p.value)])], []
+            if isinstance(p, ast.MatchClass):
+                conds = [ast.Call(func=ast.Name(id="isinstance", ctx=ast.Load()), args=[e, p.cls], keywords=[])]
+                binds: list = []
+                names = list(p.kwd_attrs)
+                subs = list(p.kwd_patterns)
+                if p.patterns:
+                    fl = fields_of(p.cls)
+                    if fl is None or len(p.patterns) > len(fl):
+                        return None
+                    names = fl[:len(p.patterns)] + names
+                    subs = list(p.patterns) + subs
+                for a_, sp in zip(names, subs):
+                    r = pat(sp, ast.Attribute(value=e, attr=a_, ctx=ast.Load()))
+                    if r is None:
+                        return None
+                    conds += r[0]
+                    binds += r[1]
+                return conds, binds
+            if isinstance(p, ast.MatchSequence):
+                if any(isinstance(x, ast.MatchStar) for x in p.patterns):
+                    return None
+                if isinstance(e, ast.Tuple) and len(e.elts) == len(p.patterns):
+                    conds, binds = [], []
+                    for x, sub in zip(e.elts, p.patterns):
+                        r = pat(sub, x)
+                        if r is None:
+                            return None
+                        conds += r[0]
+                        binds += r[1]
+                    return conds, binds
+                if isinstance(e, ast.Tuple):
+                    return [ast.Constant(value=False)], []
+                conds = [ast.Compare(left=ast.Call(func=ast.Name(id="len", ctx=ast.Load()), args=[e], keywords=[]), ops=[ast.Eq()],
+                                     comparators=[ast.Constant(value=len(p.patterns))])]
+                binds = []
+                for i_, sub in enumerate(p.patterns):
+                    r = pat(sub, ast.Subscript(value=e, slice=ast.Constant(value=i_), ctx=ast.Load()))
+                    if r is None:
+                        return None
+                    conds += r[0]
+                    binds += r[1]
+                return conds, binds
+            if isinstance(p, ast.MatchOr):
+                alts = []
+                for sub in p.patterns:
+                    r = pat(sub, e)
+                    if r is None or r[1]:
+                        return None
+                    alts.append(ast.BoolOp(op=ast.And(), values=r[0]) if len(r[0]) > 1 else (r[0][0] if r[0] else ast.Constant(value=True)))
+                return [ast.BoolOp(op=ast.Or(), values=alts)], []
+            return None
+
+        chain = None
+        tail_ref = None
+        cases = []
+        for case in st.cases:
+            # alternatives that capture names: one case per alternative, same body
+            if isinstance(case.pattern, ast.MatchOr):
+                cases.extend(ast.match_case(pattern=alt, guard=case.guard, body=case.body) for alt in case.pattern.patterns)
+            else:
+                cases.append(case)
+        for case in cases:
+            r = pat(case.pattern, subj)
+            if r is None:
+                self._match_cache[key] = (st, None)
+                return None
+            conds, binds = r
+            if case.guard is not None:
+                guard = case.guard
+                if binds:
+                    # the guard may use the captures: they are replaced by what they capture
+                    mp = {b.targets[0].id: b.value for b in binds if isinstance(b, ast.Assign) and isinstance(b.targets[0], ast.Name)}
+
+                    class _Sub(ast.NodeTransformer):
+                        def visit_Name(self, n):  # noqa: N802
+                            return mp[n.id] if isinstance(n.ctx, ast.Load) and n.id in mp else n
+                    import copy as _copy
+                    guard = _Sub().visit(_copy.deepcopy(guard))
+                conds = conds + [guard]
+            test = ast.Constant(value=True) if not conds else (conds[0] if len(conds) == 1 else ast.BoolOp(op=ast.And(), values=conds))
+            node = ast.If(test=test, body=binds + list(case.body), orelse=[])
+            if chain is None:
+                chain = node
+            else:
+                tail_ref.orelse = [node]
+            tail_ref = node
+        out = pre + ([chain] if chain is not None else [])
+        for n_ in out:
+            ast.copy_location(n_, st)
+            ast.fix_missing_locations(n_)
+            for sub_ in ast.walk(n_):
+                if not hasattr(sub_, "lineno"):
+                    sub_.lineno = st.lineno
+                    sub_.col_offset = 0
+        self._match_cache[key] = (st, out)
+        return out
 
     def _while_as_recursion(self, st: ast.While, state: State, func: Func):
         """`def f(p): [x = p]; while c: BODY  ; TAIL`  where the loop is the first thing f does and BODY carries only parameters (or their
@@ -1924,6 +2079,13 @@ class Evaluator:
             return self._table_cache[key]
         self._table_cache[key] = None
         is_partial = isinstance(v, ast.Call) and ((isinstance(v.func, ast.Name) and v.func.id == "partial") or (isinstance(v.func, ast.Attribute) and v.func.attr == "partial"))
+        if isinstance(v, ast.Call) and isinstance(v.func, ast.Name) and not is_partial:
+            # NAME = Cls(constants...): a module-level instance of a repository class that has no state to change (no fields, or a frozen dataclass)
+            rc = self.model.resolve_name(m, v.func.id)
+            if isinstance(rc, Cls) and (not list(rc.all_fields()) or any(
+                    isinstance(d, ast.Call) and getattr(d.func, "id", getattr(d.func, "attr", "")) == "dataclass" and any(
+                        k.arg == "frozen" and isinstance(k.value, ast.Constant) and k.value.value is True for k in d.keywords) for d in rc.node.decorator_list)):
+                is_partial = all(isinstance(a, ast.Constant) for a in v.args) and all(k.arg is not None and isinstance(k.value, ast.Constant) for k in v.keywords)
         if not isinstance(v, (ast.Dict, ast.Tuple, ast.List, ast.Set)) and not is_partial:
             return None
 
@@ -2176,6 +2338,15 @@ class Evaluator:
             return ("union",) + tuple(parts)
         return (h, a, b)
 
+    def _is_sentinel(self, t: Term) -> bool:
+        """a module-level constant defined as `object()`"""
+        if t[0] != "global" or not isinstance(t[1], str) or "." not in t[1]:
+            return False
+        mod, _, nm = t[1].rpartition(".")
+        m_ = self.model.modules.get(mod)
+        v_ = m_.constants.get(nm) if m_ is not None else None
+        return isinstance(v_, ast.Call) and isinstance(v_.func, ast.Name) and v_.func.id == "object" and not v_.args
+
     def compare(self, op: ast.cmpop, a: Term, b: Term) -> Term:
         if isinstance(op, (ast.In, ast.NotIn)) and a[0] == "const":
             items = self._concrete_set_items(b)
@@ -2191,6 +2362,14 @@ class Evaluator:
             if b == NONE or a == NONE:
                 x = a if b == NONE else b
                 res = self.isnone(x)
+            elif a == b and a[0] in ("global", "var", "ref", "const"):
+                res = TRUE  # the same name denotes the same object
+            elif (self._is_sentinel(a) and b[0] in ("rec", "new", "const", "tuplelit", "listlit", "setlit", "dictlit", "comp")) or (
+                    self._is_sentinel(b) and a[0] in ("rec", "new", "const", "tuplelit", "listlit", "setlit", "dictlit", "comp")):
+                res = FALSE  # a module-level `object()` marker is no freshly built value
+            elif (self._is_sentinel(a) and isinstance(self.typeof(b), tuple) and self.typeof(b)[0] == "cls") or (
+                    self._is_sentinel(b) and isinstance(self.typeof(a), tuple) and self.typeof(a)[0] == "cls"):
+                res = FALSE  # ... nor an instance of one of the repository's classes
             else:
                 res = ("is", a, b)
             return res if isinstance(op, ast.Is) else self.negate(res)
